@@ -5,6 +5,7 @@ import (
 	"go/constant"
 	"go/token"
 	"go/types"
+	"regexp"
 	"sort"
 	"strings"
 
@@ -1045,6 +1046,64 @@ func c14ObjSuffix(c *Ctx) {
 			r.Hold("R14.C", "input-read-through-links", "", sprintf("%d functions of the generator tool, no no-follow probe of a path", n))
 		}
 	}
+	// the positional / params-struct decision is taken where the wrapper's parameter list is written and again
+	// where its body builds the request: both must put the same question to the same quantity
+	r.Rule("R14.A", "every comparison with maximumPositionalArguments in the generator relates the same quantity to it with the same operator (the signature and the body of a wrapper agree on positional vs params struct)", 2)
+	{
+		trA := an.NewTracer()
+		type site struct {
+			pos  token.Pos
+			desc string
+		}
+		var sites []site
+		var gfns []*ssa.Function
+		for f := range c.P.AllFunctions() {
+			if load.FuncPkgPath(f) == load.GenPkg && f.Synthetic == "" && len(f.Blocks) > 0 {
+				gfns = append(gfns, f)
+			}
+		}
+		sort.Slice(gfns, func(i, j int) bool { return gfns[i].Pos() < gfns[j].Pos() })
+		isMax := func(v ssa.Value) bool {
+			ld, ok := v.(*ssa.UnOp)
+			if !ok || ld.Op != token.MUL {
+				return false
+			}
+			g, ok := ld.X.(*ssa.Global)
+			return ok && g.Name() == "maximumPositionalArguments"
+		}
+		describe := func(v ssa.Value) string {
+			if call, ok := v.(*ssa.Call); ok && an.CalleeName(call.Common()) == "builtin:len" && len(call.Call.Args) == 1 {
+				return "len(" + paramOrdinal.ReplaceAllString(trA.OriginString(call.Call.Args[0]), "") + ")"
+			}
+			return trA.OriginString(v)
+		}
+		flip := map[token.Token]token.Token{token.LSS: token.GTR, token.GTR: token.LSS, token.LEQ: token.GEQ, token.GEQ: token.LEQ, token.EQL: token.EQL, token.NEQ: token.NEQ}
+		for _, f := range gfns {
+			for _, b := range f.Blocks {
+				for _, in := range b.Instrs {
+					bo, ok := in.(*ssa.BinOp)
+					if !ok {
+						continue
+					}
+					if _, cmp := flip[bo.Op]; !cmp {
+						continue
+					}
+					switch {
+					case isMax(bo.Y):
+						sites = append(sites, site{bo.Pos(), describe(bo.X) + " " + bo.Op.String() + " max"})
+					case isMax(bo.X):
+						sites = append(sites, site{bo.Pos(), describe(bo.Y) + " " + flip[bo.Op].String() + " max"})
+					}
+				}
+			}
+		}
+		if len(sites) < 2 {
+			r.Undecide("R14.A", "arity-predicate", "", sprintf("%d comparison(s) with maximumPositionalArguments found, expected the signature's and the body's", len(sites)))
+		}
+		for i, st := range sites {
+			r.Check(st.desc == sites[0].desc, "R14.A", sprintf("arity-predicate#%d", i+1), c.pos(st.pos), "`"+st.desc+"` (the first site asks `"+sites[0].desc+"`)")
+		}
+	}
 	r.Rule("R14.N", "the Obj suffix is decided by the same predicate over (constructor name, type name) where the struct is declared (generateInterfaces) and where it is listed for registration (getAllConstructors)", 1)
 	tr := an.NewTracer()
 	var descr func(v ssa.Value, d int) string
@@ -1321,3 +1380,5 @@ func c14SortComparators(c *Ctx, fns []*ssa.Function) {
 		r.Undecide("R14.O", "sort-comparator", "", "no sort.Slice call found in the generator")
 	}
 }
+
+var paramOrdinal = regexp.MustCompile(`param#\d+\.`)
